@@ -32,6 +32,13 @@ inline const std::vector<int>& sym_order()
 struct Limits {
 	int maxStates = 5;
 	bool arity3 = false;
+	// pairs only: when > 0, one case in 'fanoutEvery' uses strategy FANOUT (chosen by bits of header[0] that the
+	// weighted pick does not look at, so that saved cases keep their meaning)
+	int fanoutEvery = 0;
+	// when set, a quarter of the alphabets re-use the NAME of the first leaf symbol for one or two non-nullary
+	// symbols ("a:0 a:1 a:2"): symbols are (name, rank) pairs in every encoding; the BDD encodings number them by
+	// name and tell them apart by the tuple (bottom-up) / the arity prefix (top-down) only
+	bool overload = false;
 };
 
 // alphabet = first ns entries of sym_order(), without t:3 unless allowed
@@ -43,6 +50,15 @@ inline std::vector<int> alphabet(uint32_t sel, const Limits& lim)
 		int id = sym_order()[i];
 		if (ref::arity(id) == 3 && !lim.arity3) continue;
 		s.push_back(id);
+	}
+	if (lim.overload && (sel / 7) % 4 == 0) {
+		int done = 0;
+		const int want = 1 + static_cast<int>((sel / 28) % 2);
+		for (size_t i = 1; i < s.size() && done < want; ++i) {
+			if (ref::arity(s[i]) == 0) continue;
+			s[i] = ref::symtab().id(ref::symname(s[0]), ref::arity(s[i]));
+			++done;
+		}
 	}
 	return s;
 }
@@ -205,10 +221,10 @@ inline TACase decode_ta(const Raw& raw, const Limits& lim, bool denseNumbering, 
 }
 
 // ------------------------------------------------------------------ pairs
-enum Strategy { INDEP = 0, SUPERSET, ABLATE, SPLIT, LEAFMISS, DETB, DEGENERATE, NSTRATEGIES };
+enum Strategy { INDEP = 0, SUPERSET, ABLATE, SPLIT, LEAFMISS, DETB, DEGENERATE, NSTRATEGIES, FANOUT = NSTRATEGIES };
 inline const char* strategy_name(int s)
 {
-	static const char* n[] = {"indep", "superset", "ablate", "split", "leafmiss", "detB", "degenerate"};
+	static const char* n[] = {"indep", "superset", "ablate", "split", "leafmiss", "detB", "degenerate", "fanout"};
 	return n[s];
 }
 
@@ -251,7 +267,8 @@ inline PairCase decode_pair(const Raw& raw, const Limits& lim, const std::vector
 		if (pick < weights[static_cast<size_t>(s)]) { c.strategy = s; break; }
 		pick -= weights[static_cast<size_t>(s)];
 	}
-	c.nA = 1 + static_cast<int>(h[1] % static_cast<uint32_t>(lim.maxStates));
+	if (lim.fanoutEvery > 0 && (h[0] / 1024) % static_cast<uint32_t>(lim.fanoutEvery) == 1) c.strategy = FANOUT;
+	c.nA = 1 + static_cast<int>(h[1] % static_cast<uint32_t>(c.strategy == FANOUT ? std::min(lim.maxStates, 3) : lim.maxStates));
 	c.nB = 1 + static_cast<int>(h[2] % static_cast<uint32_t>(lim.maxStates));
 	c.syms = alphabet(h[3], lim);
 	const uint32_t par = h[6];
@@ -331,6 +348,37 @@ inline PairCase decode_pair(const Raw& raw, const Limits& lim, const std::vector
 			if (par % 4 == 3) {
 				for (auto r : noise.rules) c.B.rules.insert(r);
 			}
+			break;
+		}
+		case FANOUT: {
+			// every state q of A becomes K copies K*q+j; a rule of A is replaced by 2-4 of its copies (parent copy and
+			// child copies drawn independently), a leaf rule / final state by a non-empty subset of its copies:
+			// B then offers several alternative rules for the same symbol under one macro-state, each covering only
+			// a part of what the rule of A produces
+			const int K = 3;
+			c.nB = K * c.nA;
+			for (auto& r : c.A.rules) {
+				const uint32_t ax = auxA[r];
+				if (r.ch.empty()) {
+					uint32_t mask = ax % 8;
+					if (mask == 0) mask = 1u << (ax / 8 % 3);
+					for (int j = 0; j < K; ++j) if ((mask >> j) & 1) c.B.rules.insert(Rule{r.sym, {}, K * r.par + j});
+					continue;
+				}
+				const uint32_t ncopies = 2 + ax % 3;
+				for (uint32_t cp = 0; cp < ncopies; ++cp) {
+					uint64_t v = mix(ax, cp + 31);
+					Rule n{r.sym, {}, K * r.par + static_cast<int>(v % K)};
+					for (size_t i = 0; i < r.ch.size(); ++i) { v /= K; n.ch.push_back(K * r.ch[i] + static_cast<int>(v % K)); }
+					c.B.rules.insert(n);
+				}
+			}
+			for (int f : c.A.finals) {
+				uint32_t mask = auxFinA[f] % 8;
+				if (mask == 0) mask = 7;
+				for (int j = 0; j < K; ++j) if ((mask >> j) & 1) c.B.finals.insert(K * f + j);
+			}
+			if (par % 4 == 3) for (auto r : noise.rules) c.B.rules.insert(r);
 			break;
 		}
 		case LEAFMISS: {
